@@ -788,7 +788,7 @@ fn judge_c01(w: &World, g: usize, chain: &[usize], states: &[StateKey], reached_
         let clause = if !active { "inactive-but-member" } else if c.state(g, &gid) == final_state { "same-mls-state-different-view" } else { "diverged" };
         let parts = if active { mfp_parts(&mfp, &ofp) } else { "state".to_string() };
         // one explanatory predicate per signature, by priority; the rest only in the detail
-        const PRIORITY: [&str; 10] = [
+        const PRIORITY: [&str; 11] = [
             "fork-deeper-than-retention",
             "rotated-nostr-id-on-losing-branch",
             "earlier-invalid-commit-forces-rollback",
@@ -798,6 +798,7 @@ fn judge_c01(w: &World, g: usize, chain: &[usize], states: &[StateKey], reached_
             "winner-refused-after-rollback-proposal-arrived-after-leaving-the-epoch",
             "commit-before-referenced-proposal",
             "ahead-of-epoch-marked-failed",
+            "winner-marked-failed-while-on-another-branch",
             "restarted",
         ];
         let primary = PRIORITY.iter().find(|p| preds.iter().any(|x| x.starts_with(**p))).copied().unwrap_or("unexplained");
@@ -917,6 +918,22 @@ fn classify_divergence(w: &World, ci: usize, g: usize, chain: &[usize], states: 
     let first_class = c.first_result.get(&wi).cloned().unwrap_or_default();
     if first_offer.is_none() {
         preds.insert("winner-never-offered".into());
+    }
+    // The winner was first offered while M stood on ANOTHER branch at the same or a higher epoch and
+    // had never been at s yet (it came to s later, through a rollback): the offer failed to decrypt,
+    // was recorded Failed, and the record outlives the rollback - at s the winner is refused unseen.
+    // (Needs a delivery order that hands M a commit before that commit's own predecessor.)
+    {
+        let reached_s_seq = c.transitions.iter().zip(c.transition_seq.iter()).filter(|(t, _)| &t.2 == s).map(|(_, q)| *q).min();
+        if let (Some(Some(st)), Some(offer_seq), Some(reached)) = (first_offer, c.first_offer_seq.get(&wi), reached_s_seq)
+            && st != s
+            && st.0 == s.0
+            && st.1 >= s.1
+            && *offer_seq < reached
+            && first_class.starts_with("Err(")
+        {
+            preds.insert("winner-marked-failed-while-on-another-branch".into());
+        }
     }
     // M applied (through any path) a non-canonical commit that rotated the nostr group id: events
     // of the canonical branch carry an id M no longer routes
